@@ -117,10 +117,31 @@ pub fn live(seed: u64, n: usize, out: &mut dyn Write) {
             let (st2, dn2) = (started.clone(), done.clone());
             let handle: Arc<Mutex<Option<std::thread::JoinHandle<()>>>> = Arc::new(Mutex::new(None));
             let h2 = handle.clone();
+            // every other time the new thread only ATTACHES to a span of another thread (span
+            // sets, no start / commit of its own) and then stays alive and idle until the
+            // delivery has been checked
+            let attach_only = k % 12 == 7;
+            let shared = Arc::new(Span::root(format!("late-shared-{k}"), SpanContext::new(TraceId(trace ^ 2), SpanId(9))));
+            let shared2 = shared.clone();
+            let release = Arc::new(AtomicBool::new(false));
+            let release2 = release.clone();
             fastrace::verif::set_callback(Some(Arc::new(move |p| {
                 if p == fastrace::verif::Point::Pop && !st2.swap(true, Ordering::SeqCst) {
                     let dn3 = dn2.clone();
+                    let (shared3, release3) = (shared2.clone(), release2.clone());
                     let jh = std::thread::spawn(move || {
+                        if attach_only {
+                            fastrace::verif::without_yield(|| {
+                                shared3.add_properties(|| [(format!("late-key-{k}"), "late-value".to_string())]);
+                                shared3.add_event(Event::new(format!("late-event-{k}")));
+                            });
+                            drop(shared3);
+                            dn3.store(true, Ordering::SeqCst);
+                            while !release3.load(Ordering::SeqCst) {
+                                std::thread::sleep(Duration::from_millis(1));
+                            }
+                            return;
+                        }
                         fastrace::verif::without_yield(|| {
                             let root = Span::root(format!("late-root-{k}"), SpanContext::new(TraceId(trace), SpanId(9)));
                             {
@@ -154,6 +175,40 @@ pub fn live(seed: u64, n: usize, out: &mut dyn Write) {
             }
             let caught = started.load(Ordering::SeqCst);
             fastrace::verif::set_callback(None);
+            if attach_only {
+                let t0 = Instant::now();
+                while caught && !done.load(Ordering::SeqCst) && t0.elapsed() < Duration::from_millis(10000) {
+                    std::thread::sleep(Duration::from_millis(1));
+                }
+                // the attaching thread is still alive; the span it attached to finishes now
+                drop(shared);
+                fastrace::flush();
+                fastrace::flush();
+                let mut bad: Vec<String> = vec![];
+                {
+                    let g = reports.lock().unwrap();
+                    let recs: Vec<&SpanRecord> = g.iter().flat_map(|b| b.iter()).filter(|x| x.name == format!("late-shared-{k}")).collect();
+                    if recs.len() != 1 {
+                        bad.push(format!("late-shared-{k} delivered {} times", recs.len()));
+                    } else if caught {
+                        if !recs[0].properties.iter().any(|(a, _)| *a == format!("late-key-{k}")) {
+                            bad.push("the property attached by a thread that registered during the drain is missing".to_string());
+                        }
+                        if !recs[0].events.iter().any(|e| e.name == format!("late-event-{k}")) {
+                            bad.push("the event attached by a thread that registered during the drain is missing".to_string());
+                        }
+                    }
+                }
+                release.store(true, Ordering::SeqCst);
+                if let Some(jh) = handle.lock().unwrap().take() {
+                    let _ = jh.join();
+                }
+                drain(&mut delivered);
+                let verdict = if bad.is_empty() { "delivered-once".to_string() } else { format!("VIOLATION {}", bad.join("; ")) };
+                let _ = writeln!(out, "L scenario={} attach-during-drain caught={} => {}", k, caught, verdict);
+                continue;
+            }
+            drop(shared);
             if let Some(jh) = handle.lock().unwrap().take() {
                 let _ = jh.join();
             }
